@@ -509,7 +509,15 @@ func tmplOfDef(fs []*datadictionary.FieldDef) []tItem {
 	return items
 }
 
-func genDgrp(r *rng, o *out, do func(string) string) {
+// in the thorough tier the groups of all shipped dictionaries are enumerated (every group occurrence of every message,
+// cyclically), in the quick tier a seeded sample is drawn
+var dgrpCounter int
+var dgrpAll []struct {
+	app string
+	g   dgroup
+}
+
+func genDgrp(r *rng, o *out, do func(string) string, tier string) {
 	do("!label dgrp")
 	app := appDicts[r.intn(len(appDicts))]
 	gs := dictGroups(app)
@@ -518,6 +526,22 @@ func genDgrp(r *rng, o *out, do func(string) string) {
 		gs = dictGroups(app)
 	}
 	g := gs[r.intn(len(gs))]
+	if tier == "thorough" {
+		if dgrpAll == nil {
+			for _, a := range appDicts {
+				for _, x := range dictGroups(a) {
+					dgrpAll = append(dgrpAll, struct {
+						app string
+						g   dgroup
+					}{a, x})
+				}
+			}
+		}
+		e := dgrpAll[dgrpCounter%len(dgrpAll)]
+		dgrpCounter++
+		app, g = e.app, e.g
+		o.kind("dgrp.enumerated")
+	}
 	d := dict(app)
 	mm := d.Messages[g.msgType]
 	tmpl := tmplOfDef(g.fd.Fields)
@@ -683,12 +707,12 @@ func genCodec(r *rng, tier string, idx int, o *out, do func(string) string) stri
 	case 6, 7:
 		genGrp(r, o, do)
 	case 8:
-		genDgrp(r, o, do)
+		genDgrp(r, o, do, tier)
 	default:
 		if idx%20 == 9 {
 			genJunk(r, o, do)
 		} else {
-			genDgrp(r, o, do)
+			genDgrp(r, o, do, tier)
 		}
 	}
 	return ""
